@@ -1119,6 +1119,54 @@ func c01Computed() *Result {
 	return nil
 }
 
+// c01WriterHistory: the SafeWriter at the end of a pipeline is the one its name denotes in THIS execution (an Execute
+// variable, a global, the built-in), whatever an earlier execution of the same template resolved it to
+func c01WriterHistory() *Result {
+	set := jet.NewSet(jet.NewInMemLoader())
+	t, err := set.Parse("/w.jet", `[{{ v | w }}][{{ w: v }}][{{ v | raw }}][{{ v }}]`)
+	if err != nil {
+		return nil
+	}
+	mk := func(open, close string) jet.SafeWriter {
+		return func(w io.Writer, b []byte) { w.Write([]byte(open)); w.Write(b); w.Write([]byte(close)) }
+	}
+	run := func(wr jet.SafeWriter) (string, error) {
+		vars := jet.VarMap{}
+		vars.Set("v", "<i>&").Set("w", wr)
+		var b bytes.Buffer
+		err := safeExecute(t, &b, vars, nil)
+		return b.String(), err
+	}
+	for round, e := range []struct {
+		w    jet.SafeWriter
+		want string
+	}{{mk("(", ")"), "[(<i>&)][(<i>&)][<i>&][&lt;i&gt;&amp;]"}, {mk("{", "}"), "[{<i>&}][{<i>&}][<i>&][&lt;i&gt;&amp;]"}, {mk("(", ")"), "[(<i>&)][(<i>&)][<i>&][&lt;i&gt;&amp;]"}} {
+		got, err := run(e.w)
+		if err != nil || got != e.want {
+			return &Result{Sig: map[string]interface{}{"kind": "writer-history", "escaper": "html", "round": round, "tag": "", "shape": "", "stage": ""}, Key: "computed",
+				Observed: got, Expected: e.want,
+				Detail: fmt.Sprintf("execution %d of one template with another SafeWriter bound to w rendered %q (err %v), want %q", round, got, err, e.want)}
+		}
+	}
+	// a global named like a built-in writer, added after the template ran once
+	t2, err := set.Parse("/w2.jet", `[{{ v | raw }}]`)
+	if err != nil {
+		return nil
+	}
+	vars := jet.VarMap{}
+	vars.Set("v", "<i>&")
+	var b1, b2 bytes.Buffer
+	safeExecute(t2, &b1, vars, nil)
+	set.AddGlobal("raw", mk("(", ")"))
+	safeExecute(t2, &b2, vars, nil)
+	if b1.String() != "[<i>&]" || b2.String() != "[(<i>&)]" {
+		return &Result{Sig: map[string]interface{}{"kind": "writer-history", "escaper": "html", "round": 9, "tag": "", "shape": "", "stage": ""}, Key: "computed",
+			Observed: b1.String() + " then " + b2.String(), Expected: "[<i>&] then [(<i>&)]",
+			Detail: fmt.Sprintf("{{ v | raw }} rendered %q, and %q after a global SafeWriter named raw was added; the name denotes the global then", b1.String(), b2.String())}
+	}
+	return nil
+}
+
 type c01Holder struct{ S string }
 
 func (h c01Holder) M() string { return "<m" + h.S + ">" }
@@ -1130,6 +1178,9 @@ func c01Replay(i int, raw json.RawMessage) Result {
 	}
 	if i == 0 {
 		if r := c01Computed(); r != nil {
+			return *r
+		}
+		if r := c01WriterHistory(); r != nil {
 			return *r
 		}
 	}
